@@ -446,6 +446,22 @@ def vts(isa, thorough):
             out.append((VT(ty, abi, isa), lvl))
     return out
 
+def complex_mask_store_case(base, abi, lanes, cfg):
+    """masked store of a complex SIMD vector (split real/imaginary registers): the enabled lanes of the destination get the
+    (re,im) pairs of the vector, the disabled lanes stay untouched; symbolic 8-bit mask (all masks at once).  SYM."""
+    C = 'std::complex<%s>' % base.cpp
+    a = Buf('a', base, 2 * lanes, 'in'); c = Buf('c', base, 2 * lanes, 'inout'); m = Scalar('m', UINT, 0, (1 << lanes) - 1)
+    body = ('    using V = SIMDVector<%s,simd_abi::%s>;\n    static_assert(V::Size == %d, "lane count");\n'
+            '    V va(reinterpret_cast<const %s*>(a), false);\n    va.mask_store(reinterpret_cast<%s*>(c), (uint8_t)m, false);' % (C, abi, lanes, C, C))
+    ens = []
+    for i in range(lanes):
+        # Fastor masks are written most-significant-lane first like the AVX-512 intrinsics: bit i enables lane i
+        bit = E.arg(m).bitand(E.const(1 << i, UINT)).cmp('ne', E.const(0, UINT))
+        for part in (0, 1):
+            k = 2 * i + part
+            ens.append((c, k, E.sel(bit, E.inp(a, k), E.inp(c, k))))
+    return Case('C08/cmask_store/c%s/%s/%s' % (base.name, abi, cfg.tag()), 'C08', body, [a, c], ens, 'SYM', cfg, scalars=[m])
+
 def cases(tier, seed):
     rng = random.Random(seed)
     out = []
@@ -457,6 +473,10 @@ def cases(tier, seed):
             if lvl == 'sample': cs = [c for c in cs if SAMPLE.match(c.cid.split('/')[1])]
             elif lvl == 'sens': cs = [c for c in cs if ISA_SENSITIVE.match(c.cid.split('/')[1])]
             out += cs
+        if isa == 'avx512':
+            out.append(complex_mask_store_case(DBL, 'avx512', 8, P1))
+            out.append(complex_mask_store_case(FLT, 'avx', 8, P1))
+            out.append(complex_mask_store_case(DBL, 'avx', 4, P1))
         if isa == 'sse2' or thorough:
             # 16-lane generic vectors take an 8-bit mask (same class as the SIMDVector<int32,avx512> mask fixed in d25f003)
             v16 = VT(FLT, 'fixed16', isa)
